@@ -5,6 +5,7 @@ Stable propagation, fallback condition agreement.
 Verdict policy of this file: a violation is reported only on positive evidence - a configuration of the evaluated
 skeleton, a CFG path, a grid point, a valuation of a decision table.  Where a shape is not recognised the rule raises
 dtable.Undecidable (exit 2); absence is concluded only in a closed world (every operation on the object is classified)."""
+import os
 import re
 
 from engine import ir, dtable, match, skel, cfg as cfgm
@@ -46,6 +47,16 @@ def key_root(k):
     while isinstance(k, tuple) and len(k) == 3 and k[0] in ("elem", "member"):
         k = k[1]
     return k
+
+
+def is_fp(v):
+    """("fp", container, offset): a position (pointer / iterator) in a flat watched container"""
+    return isinstance(v, tuple) and len(v) == 3 and v[0] == "fp"
+
+
+def is_closure(v):
+    """("closure", lambda function, ((captured variable, value at the capture), ..)): a lambda object that is followed"""
+    return isinstance(v, tuple) and len(v) == 3 and v[0] == "closure"
 
 
 def assign_op(op):
@@ -133,10 +144,36 @@ class WatchSkel(skel.Skel):
     """a skeleton that does not lose track of the watched containers: a call that cannot be followed and is handed one of
     them (by reference, by pointer, as a whole or one of its rows) is undecidable instead of being skipped"""
     watched = frozenset()
+    flat = frozenset()       # watched one-level containers: their elements are addressed through ("fp", container, offset) values
 
     def names_watched(self, d):
         """the declaration is a watched container or a reference into one"""
         return key_root(self.alias.get(d, d)) in self.watched
+
+    def tainted(self, v, seen=()):
+        """the value leads into a watched container: a pointer to a part of it, a position in a flat one, a closure that
+        captured such a value or that names the container / a variable holding such a value"""
+        if not isinstance(v, tuple):
+            return False
+        if len(v) == 2 and v[0] == "ptr":
+            return key_root(v[1]) in self.watched
+        if is_fp(v):
+            return v[1] in self.watched
+        if is_closure(v):
+            if v[1] in seen:
+                return False
+            if any(self.tainted(x, seen + (v[1],)) for _, x in v[2]):
+                return True
+            lf = self.tu.by_did.get(v[1]) if self.tu is not None else None
+            if lf is None:
+                return True
+            byval = {c for c, _ in v[2]}
+            for y in lf.nodes():
+                if y["k"] == "DeclRefExpr" and y["ref"]["id"] not in byval:
+                    d = y["ref"]["id"]
+                    if self.names_watched(d) or self.tainted(self.env.get(self.alias.get(d, d)), seen + (v[1],)):
+                        return True
+        return False
 
     def touches(self, e):
         for y in ir.walk(e):
@@ -145,10 +182,108 @@ class WatchSkel(skel.Skel):
             k = self.alias.get(y["ref"]["id"], y["ref"]["id"])
             if key_root(k) in self.watched:
                 return True
-            v = self.env.get(k)
-            if isinstance(v, tuple) and len(v) == 2 and v[0] == "ptr" and key_root(v[1]) in self.watched:
+            if self.tainted(self.env.get(k)):
                 return True
         return False
+
+    def lvalue(self, e):
+        """one more kind of place: the element a position in a flat watched container stands for (*p, p[i])"""
+        e0 = strip_casts(e)
+        while e0 is not None and e0["k"] == "ParenExpr":
+            e0 = strip_casts(kids(e0)[0])
+        if self.flat and e0 is not None:
+            op = match.deref_of(e0)
+            if op is not None and self.touches(op):
+                a = self.ev(op)
+                if is_fp(a):
+                    return ("elem", a[1], a[2])
+                if isinstance(a, tuple) and len(a) == 2 and a[0] == "ptr":
+                    return a[1]
+                return None
+            ip = match.index_parts(e0)
+            if ip and self.touches(ip[0]):
+                bty = (strip_casts(ip[0]).get("ty") or "").rstrip()
+                if bty.endswith("*") or "iterator" in bty.split("<")[0] or ref_of(ip[0]) is None:
+                    a = self.ev(ip[0])
+                    if is_fp(a):
+                        idx = self.ev(ip[1])
+                        return ("elem", a[1], a[2] + idx) if isinstance(idx, int) and not isinstance(idx, bool) else None
+                    if ref_of(ip[0]) is None:
+                        return None
+        return super().lvalue(e)
+
+    on_decl = None
+
+    def stmt(self, s):
+        super().stmt(s)
+        if self.flat and self.on_decl is not None and s is not None and s["k"] == "DeclStmt":
+            for v in kids(s):
+                if v["k"] == "VarDecl" and v.get("did") in self.flat:
+                    self.on_decl(v, self)
+
+    def fp_alg(self, op, a, b, e):
+        """arithmetic of positions in a flat container: p + n, n + p, p - n, p - q, comparisons of positions in one container"""
+        ia = isinstance(a, int) and not isinstance(a, bool)
+        ib = isinstance(b, int) and not isinstance(b, bool)
+        if is_fp(a) and ib and op in ("+", "-"):
+            return ("fp", a[1], a[2] + (b if op == "+" else -b))
+        if is_fp(b) and ia and op == "+":
+            return ("fp", b[1], b[2] + a)
+        if is_fp(a) and is_fp(b) and a[1] == b[1]:
+            if op == "-":
+                return a[2] - b[2]
+            if op in ("<", "<=", ">", ">=", "==", "!="):
+                return {"<": a[2] < b[2], "<=": a[2] <= b[2], ">": a[2] > b[2], ">=": a[2] >= b[2], "==": a[2] == b[2], "!=": a[2] != b[2]}[op]
+        if is_fp(a) or is_fp(b):
+            raise undecided(self.fn, e, "arithmetic on a position in the split table not understood")
+        return NotImplemented
+
+    def call_closure(self, clo, e, args):
+        """runs the body of a lambda whose closure is followed: by-value captures have the values they had when the closure
+        was made, everything else is the caller's state"""
+        lf = self.tu.by_did.get(clo[1]) if self.tu is not None else None
+        if lf is None or lf.body is None or self.depth >= 5 or len(args) != len(lf.params):
+            raise undecided(self.fn, e, "call of a lambda that cannot be followed")
+        for cid, _ in clo[2]:
+            if modifications(lf, cid):
+                raise undecided(self.fn, e, "the lambda changes its own copy of a captured variable")
+        saved_alias = dict(self.alias)
+        missing = object()
+        bound = []
+        for p, a in zip(lf.params, args):
+            ty = (p.get("ty") or "").rstrip()
+            key = self.lvalue(a) if ty.endswith("&") else None
+            if ty.endswith("&") and not ty.endswith("&&") and "const" not in ty.split("<")[0] and key is None:
+                raise undecided(self.fn, e, "reference argument of a lambda call not understood")
+            bound.append((p["did"], key, None if key is not None else self.ev(a)))
+        saved_env = {d: self.env.get(d, missing) for d in [c for c, _ in clo[2]] + [d for d, _, _ in bound]}
+        for d, key, val in bound:
+            self.alias.pop(d, None)
+            if key is not None:
+                self.alias[d] = key
+            else:
+                self.env[d] = val
+        for cid, val in clo[2]:
+            self.alias.pop(cid, None)
+            self.env[cid] = val
+        self.depth += 1
+        saved_fn = self.fn
+        self.fn = lf
+        try:
+            self.run(kids(lf.body))
+            ret = None
+        except skel.Return as r_:
+            ret = r_.v
+        finally:
+            self.fn = saved_fn
+            self.depth -= 1
+            self.alias = saved_alias
+            for d, val in saved_env.items():
+                if val is missing:
+                    self.env.pop(d, None)
+                else:
+                    self.env[d] = val
+        return ret
 
     def object_key(self, e, arrow=False):
         """key of the object a member function is called on (obj.f() / ptr->f())"""
@@ -356,47 +491,152 @@ class ObjSkel(skel.Skel):
         return r
 
 
-def check_exact(ck, tu, fn):
+NSEQ = 2                 # the number of sequences in the evaluated configurations (seqs_end - seqs_begin)
+
+
+def flat_container(ty):
+    """a one-level container (std::vector<E>, tlx::SimpleVector<E>) whose elements are neither containers nor integers"""
+    t = (ty or "").strip()
+    if t.startswith("const "):
+        t = t[6:].strip()
+    if is_table(t):
+        return False
+    for outer in ("tlx::SimpleVector<", "std::vector<"):
+        if t.startswith(outer) and t.endswith(">"):
+            el = t[len(outer):-1].strip()
+            return bool(el) and not scalar_int(el) and el not in ("bool", "float", "double", "long double") and \
+                not el.startswith(("std::vector<", "tlx::SimpleVector<"))
+    return False
+
+
+def closure_variable(fn, e):
+    """the lambda expression is the initialiser of a local variable (the closure is then followed through that variable)"""
+    par = fn.parent(e)
+    while par is not None and par["k"] in ("ImplicitCastExpr", "ExprWithCleanups", "MaterializeTemporaryExpr", "CXXBindTemporaryExpr", "ParenExpr",
+                                           "CXXConstructExpr", "CXXFunctionalCastExpr"):
+        if par["k"] == "CXXConstructExpr" and len([a for a in kids(par) if a is not None and a["k"] != "DefaultArg"]) != 1:
+            return False
+        par = fn.parent(par)
+    return par is not None and par["k"] == "VarDecl" and not (par.get("ty") or "").rstrip().endswith("&")
+
+
+def check_exact(ck, tu, fn, raw=None):
     """SPLIT-DEFINITE-INIT: every row of the split table that is read when the chunks are cut was sized and filled by a
     partition before, for every number of threads and for size == total as well as size < total.  Decided by evaluating
     the function's index skeleton (thread count, tightness, loop indices) for T = 1..4 and both tightness values.  The
     table is followed in a closed world: sizing (resize), filling (the partition writing through row.begin()) and element
-    reads are the classified operations, reference / pointer aliases of rows and helpers that can be inlined are followed,
-    every other use of the table is undecidable."""
+    reads are the classified operations, reference / pointer aliases of rows, helpers that can be inlined and lambdas held
+    in a local are followed, every other use of the table is undecidable.  The table may also be one flat container that
+    is constructed with all its elements; the partition then fills the NSEQ elements from the position it is handed.
+    `raw` yields the function as it was extracted, before the normaliser rewrote it: where the rewritten function cannot
+    be decided the original one is evaluated (both are the same code; a verdict on either is a verdict on the function)."""
     tag = "exact_splitting<%s>" % fn.targs[0]
+    try:
+        res = exact_verdict(tu, fn)
+    except ir.AnalysisBroken as ex:
+        twin = raw(fn) if raw is not None and getattr(fn, "normalized", False) else None
+        if twin is None:
+            raise
+        try:
+            res = exact_verdict(twin[0], twin[1])
+        except ir.AnalysisBroken:
+            raise ex
+    if res[0] == "bad":
+        _, T, tight, label, e, why = res
+        ck.violation("SPLIT-DEFINITE-INIT", fn.qname, tag + ":row", "with %d thread%s and size %s total, %s of the split table %s"
+                     % (T, "" if T == 1 else "s", "==" if tight else "<", label, why), fn.nloc(e))
+        return
+    ck.ok("SPLIT-DEFINITE-INIT", tag, "every row read while cutting the chunks was sized and filled before, for T = 1..4, size == total and size < total "
+          "(%d reads, %d fills over the 8 configurations)" % (res[1], res[2]))
+
+
+def exact_verdict(tu, fn):
+    """-> ("ok", reads, fills) | ("bad", T, tight, "row r" / "element i", node, why)"""
     seqs_b, seqs_e = fn.params[0]["did"], fn.params[1]["did"]
     sizep, totalp, nthreads = fn.params[2]["did"], fn.params[3]["did"], fn.params[6]["did"]
     tdecls = [v for v in fn.nodes() if v["k"] == "VarDecl" and is_table(v.get("ty"))]
+    fdecls = [v for v in fn.nodes() if v["k"] == "VarDecl" and v.get("did") is not None and flat_container(v.get("ty"))] if not tdecls else []
     tables = {v["did"] for v in tdecls}
-    ck.require(len(tables) == 1, "%s: split table (simple_vector of vectors) not found" % fn.loc)
-    ctor = [a for a in kids(kids(tdecls[0])[0]) if a is not None and a["k"] != "DefaultArg"] if kids(tdecls[0]) and kids(tdecls[0])[0] is not None else []
-    if len(ctor) != 1 or not is_integer(strip_casts(ctor[0]).get("ty")):
-        raise undecided(fn, tdecls[0], "the split table is not constructed from a row count alone")
+    flat = {v["did"] for v in fdecls}
+    if len(tables) != 1 and not (not tables and flat):
+        raise ir.AnalysisBroken("%s: split table (simple_vector of vectors) not found" % fn.loc)
+    counts = {}
+    for v in tdecls + fdecls:
+        ctor = [a for a in kids(kids(v)[0]) if a is not None and a["k"] != "DefaultArg"] if kids(v) and kids(v)[0] is not None and \
+            kids(v)[0]["k"] in ("CXXConstructExpr", "CXXTemporaryObjectExpr") else []
+        if len(ctor) != 1 or not is_integer(strip_casts(ctor[0]).get("ty")):
+            raise undecided(fn, v, "the split table is not constructed from a row count alone")
+        counts[v["did"]] = ctor[0]
     nreads = nfills = 0
     bad = None
     for T in (1, 2, 3, 4):
         for tight in (True, False):
             sized, filled, reads = set(), set(), []
+            cells, flat_n, starts = set(), {}, set()      # flat table: filled elements, number of elements, positions handed to the partition
 
             def classify(key):
-                """("table",) | ("row", r) | ("elem", r, s) | None"""
+                """("table",) | ("row", r) | ("elem", r, s) | ("ftable", t) | ("cell", t, i) | None"""
                 if key in tables:
                     return ("table",)
+                if key in flat:
+                    return ("ftable", key)
                 if isinstance(key, tuple) and len(key) == 3 and key[0] == "elem":
                     if key[1] in tables:
                         return ("row", key[2])
+                    if key[1] in flat and isinstance(key[2], int) and not isinstance(key[2], bool):
+                        return ("cell", key[1], key[2])
                     if isinstance(key[1], tuple) and len(key[1]) == 3 and key[1][0] == "elem" and key[1][1] in tables:
                         return ("elem", key[1][2], key[2])
                 return None
+
+            def read_cell(what, e):
+                n = flat_n.get(what[1])
+                if n is None:
+                    raise undecided(fn, e, "the split table is used before its declaration was evaluated")
+                if not 0 <= what[2] < n:
+                    why = "is read, which is outside the table (%d elements)" % n
+                else:
+                    why = None if (what[1], what[2]) in cells else "is read but was never filled"
+                reads.append(("element %d" % what[2], e, why))
+
+            def pointer_variable(sk, target):
+                """(key, value) if the store target is a plain local that holds a position in the flat table"""
+                d = ref_of(target)
+                key = sk.alias.get(d, d) if d is not None else None
+                if key is None or isinstance(key, tuple) or key in flat or key in tables:
+                    return None
+                old = sk.load(key)
+                return (key, old) if is_fp(old) and old[1] in flat else None
+
+            def declared(sk, d):
+                return d in sk.env or d in sk.alias or any(p.get("did") == d for p in sk.fn.params) or \
+                    any(v["k"] == "VarDecl" and v.get("did") == d for v in sk.fn.nodes())
 
             def event(e, sk):
                 k = e["k"]
                 if k == "LambdaExpr":
                     lf = tu.by_did.get(e.get("fn"))
-                    if lf is None or any(y["k"] == "DeclRefExpr" and sk.names_watched(y["ref"]["id"]) for y in lf.nodes()) or \
-                            any(sk.names_watched(c.get("id")) for c in e.get("captures", [])):
+                    caps = e.get("captures", [])
+                    if lf is not None and lf.body is not None and all(c.get("id") is not None for c in caps) and closure_variable(sk.fn, e):
+                        byval = []
+                        for c in caps:
+                            if c.get("byref"):
+                                continue
+                            if sk.names_watched(c["id"]):
+                                raise undecided(sk.fn, e, "the split table is copied into a lambda")
+                            if not declared(sk, c["id"]):
+                                raise undecided(sk.fn, e, "the declaration of the captured variable %s is not in the function" % c.get("name"))
+                            byval.append((c["id"], sk.load(sk.alias.get(c["id"], c["id"]))))
+                        return ("closure", e["fn"], tuple(byval))
+                    if lf is None or any(y["k"] == "DeclRefExpr" and (sk.names_watched(y["ref"]["id"]) or sk.touches(y)) for y in lf.nodes()) or \
+                            any(sk.names_watched(c.get("id")) for c in caps):
                         raise undecided(sk.fn, e, "the split table is used inside a lambda")
                     return NotImplemented
+                if k == "CXXOperatorCallExpr" and e.get("op") == "()" and kids(e) and ref_of(kids(e)[0]) is not None:
+                    d0 = ref_of(kids(e)[0])
+                    v0 = sk.load(sk.alias.get(d0, d0))
+                    if is_closure(v0):
+                        return sk.call_closure(v0, e, [a for a in kids(e)[1:] if a is not None and a["k"] != "DefaultArg"])
                 if "callee" in e and e.get("member_call") and kids(e) and e["callee"]["name"] != "at" and sk.touches(kids(e)[0]):
                     what = classify(sk.object_key(kids(e)[0], e.get("arrow")))
                     name = e["callee"]["name"]
@@ -417,10 +657,33 @@ def check_exact(ck, tu, fn):
                             return None
                     if what and what[0] == "table" and name == "size":
                         return sk.env.get(next(iter(tables)))
+                    if what and what[0] == "ftable" and what[1] in flat_n and len([a for a in kids(e)[1:] if a is not None and a["k"] != "DefaultArg"]) == 0:
+                        n = flat_n[what[1]]
+                        if name in ("data", "begin", "cbegin"):
+                            return ("fp", what[1], 0)
+                        if name in ("end", "cend"):
+                            return ("fp", what[1], n)
+                        if name == "size":
+                            return n
+                        if name == "empty":
+                            return n == 0
                     raise undecided(sk.fn, e, "operation on the split table not understood")
                 if "callee" in e and e["callee"]["name"] == "multisequence_partition":
-                    for a_ in kids(e):
+                    for i, a_ in enumerate(kids(e)):
                         if a_ is None or not sk.touches(a_):
+                            continue
+                        if flat:
+                            if i != 3 or ref_of(match.strip_conv(kids(e)[0])) != seqs_b or ref_of(match.strip_conv(kids(e)[1])) != seqs_e:
+                                raise undecided(sk.fn, a_, "the partition receives the split table in a form that is not understood")
+                            p = sk.ev(a_)
+                            if not is_fp(p) or p[1] not in flat_n:
+                                raise undecided(sk.fn, a_, "the partition receives the split table in a form that is not understood")
+                            if p[2] < 0 or p[2] + NSEQ > flat_n[p[1]]:
+                                reads.append(("element %d" % p[2], e, "is where the partition writes %d elements, which is outside the table (%d elements)"
+                                              % (NSEQ, flat_n[p[1]])))
+                            else:
+                                cells.update((p[1], p[2] + j) for j in range(NSEQ))
+                            starts.add((p[1], p[2]))
                             continue
                         z = match.strip_conv(a_)
                         what = None
@@ -429,13 +692,21 @@ def check_exact(ck, tu, fn):
                         if not what or what[0] != "row":
                             raise undecided(sk.fn, a_, "the partition receives the split table in a form that is not understood")
                         if what[1] not in sized:
-                            reads.append((what[1], e, "is written by the partition before it was sized"))
+                            reads.append(("row %d" % what[1], e, "is written by the partition before it was sized"))
                         filled.add(what[1])
                     return None
                 if k in ("BinaryOperator", "CompoundAssignOperator", "CXXOperatorCallExpr"):
                     b = match.binop(e)
                     if b and assign_op(b[0]) and sk.touches(b[1]):
-                        what = classify(sk.lvalue(b[1])) if b[0] == "=" else None
+                        pv = pointer_variable(sk, b[1]) if flat else None
+                        if pv is not None and b[0] in ("=", "+=", "-="):
+                            rhs = sk.ev(b[2])
+                            new = rhs if b[0] == "=" else sk.fp_alg(b[0][0], pv[1], rhs, e)
+                            if new is NotImplemented:
+                                raise undecided(sk.fn, e, "arithmetic on a position in the split table not understood")
+                            sk.store(pv[0], new)
+                            return new
+                        what = classify(sk.lvalue(b[1])) if b[0] == "=" and not flat else None
                         rhs = strip_casts(b[2])
                         cargs = [a for a in kids(rhs) if a is not None and a["k"] != "DefaultArg"] if rhs is not None and \
                             rhs["k"] in ("CXXConstructExpr", "CXXTemporaryObjectExpr") else []
@@ -450,14 +721,35 @@ def check_exact(ck, tu, fn):
                         raise undecided(sk.fn, e, "store into the split table not understood")
                 u = match.unop(e, ("++", "--"))
                 if u and sk.touches(u[1]):
+                    pv = pointer_variable(sk, u[1]) if flat else None
+                    if pv is not None:
+                        new = ("fp", pv[1][1], pv[1][2] + (1 if u[0] == "++" else -1))
+                        sk.store(pv[0], new)
+                        return pv[1] if u[2] else new
                     raise undecided(sk.fn, e, "store into the split table not understood")
                 ip = match.index_parts(e)
                 if ip is not None and sk.touches(ip[0]):
                     what = classify(sk.lvalue(e))
                     if what and what[0] == "elem":
-                        reads.append((what[1], e, None if what[1] in filled else "is read but was never filled"))
+                        reads.append(("row %d" % what[1], e, None if what[1] in filled else "is read but was never filled"))
+                        return None
+                    if what and what[0] == "cell":
+                        read_cell(what, e)
                         return None
                     raise undecided(sk.fn, e, "use of the split table not understood (a row as a whole, or a row index that depends on data)")
+                if flat:
+                    op_ = match.deref_of(e)
+                    if op_ is not None and sk.touches(op_):
+                        what = classify(sk.lvalue(e))
+                        if what and what[0] == "cell":
+                            read_cell(what, e)
+                            return None
+                        raise undecided(sk.fn, e, "use of the split table not understood")
+                    if k == "UnaryOperator" and e.get("op") == "&" and sk.touches(kids(e)[0]):
+                        what = classify(sk.lvalue(kids(e)[0]))
+                        if what and what[0] == "cell":
+                            return ("fp", what[1], what[2])
+                        raise undecided(sk.fn, e, "use of the split table not understood")
                 if k == "DeclRefExpr" and sk.names_watched(e["ref"]["id"]):
                     raise undecided(sk.fn, e, "use of the split table not understood")
                 return NotImplemented
@@ -465,14 +757,25 @@ def check_exact(ck, tu, fn):
             def unknown(e, sk):
                 b_ = match.binop(e, ("-",)) if e["k"] in ("BinaryOperator", "CXXOperatorCallExpr") else None
                 if b_ and ref_of(b_[1]) == seqs_e and ref_of(b_[2]) == seqs_b:
-                    return 2
+                    return NSEQ
                 if "callee" in e and e["callee"]["name"] == "distance" and len(kids(e)) == 2 and \
                         ref_of(match.strip_conv(kids(e)[0])) == seqs_b and ref_of(match.strip_conv(kids(e)[1])) == seqs_e:
-                    return 2
+                    return NSEQ
                 return None
+
+            def on_decl(v, sk):
+                n = sk.ev(counts[v["did"]])
+                if not isinstance(n, int) or isinstance(n, bool) or n < 0:
+                    raise undecided(sk.fn, v, "the number of elements of the split table is not known")
+                flat_n[v["did"]] = n                 # a new object: n value-initialised elements, none of them filled
+                for c in [c for c in cells if c[0] == v["did"]]:
+                    cells.discard(c)
             env = {nthreads: T, totalp: 6, sizep: 6 if tight else 4}
             sk = WatchSkel(fn, env, unknown, event, tu=tu)
-            sk.watched = frozenset(tables)
+            sk.watched = frozenset(tables | flat)
+            sk.flat = frozenset(flat)
+            sk.on_decl = on_decl
+            sk.alg = sk.fp_alg
             try:
                 sk.run(kids(fn.body))
             except skel.Return:
@@ -480,19 +783,15 @@ def check_exact(ck, tu, fn):
             except dtable.Undecidable as ex:
                 raise readable(ex, fn)
             nreads += len([r for r in reads if r[2] is None])
-            nfills += len(filled)
+            nfills += len(filled) + len(starts)
             for v, e, why in reads:
                 if why and bad is None:
                     bad = (T, tight, v, e, why)
     if bad:
-        T, tight, v, e, why = bad
-        ck.violation("SPLIT-DEFINITE-INIT", fn.qname, tag + ":row", "with %d thread%s and size %s total, row %d of the split table %s"
-                     % (T, "" if T == 1 else "s", "==" if tight else "<", v, why), fn.nloc(e))
-        return
+        return ("bad",) + bad
     if nreads == 0 or nfills == 0:
         raise ir.AnalysisBroken("%s: no reads / fills of the split table seen" % fn.loc)
-    ck.ok("SPLIT-DEFINITE-INIT", tag, "every row read while cutting the chunks was sized and filled before, for T = 1..4, size == total and size < total "
-          "(%d reads, %d fills over the 8 configurations)" % (nreads, nfills))
+    return ("ok", nreads, nfills)
 
 
 IAM = 3                  # the slab index used when a per-slab fragment is evaluated
@@ -1524,8 +1823,24 @@ def run(ck):
     types = ["int"] if ck.tier == "quick" else ["int", "std::string"]
     for t in types:
         tu = ir.extract("witness/C07_parallel_merge.cpp", defines=["WITNESS_T=" + t], extra_flags=["-include", "string"])
+        raw_tu = []
+
+        def raw(fn, t=t, raw_tu=raw_tu):
+            """the same function of the same translation unit as the extractor delivered it (no normaliser rewrites)"""
+            if not raw_tu:
+                old = os.environ.get("VERIF_NO_NORMALIZE")
+                os.environ["VERIF_NO_NORMALIZE"] = "1"
+                try:
+                    raw_tu.append(ir.extract("witness/C07_parallel_merge.cpp", defines=["WITNESS_T=" + t], extra_flags=["-include", "string"]))
+                finally:
+                    if old is None:
+                        del os.environ["VERIF_NO_NORMALIZE"]
+                    else:
+                        os.environ["VERIF_NO_NORMALIZE"] = old
+            twins = [f for f in raw_tu[0].find(qname=fn.qname) if f.full == fn.full and f.targs == fn.targs]
+            return (raw_tu[0], twins[0]) if len(twins) == 1 else None
         for fn in tu.some(qname=EXACT):
-            check_exact(ck, tu, fn)
+            check_exact(ck, tu, fn, raw)
         for fn in tu.some(qname=BASE):
             check_base(ck, tu, fn)
         check_fronts(ck, tu)
